@@ -15,6 +15,11 @@ if R != "/repo":
 only = sys.argv[1:]
 rows = []
 if R != "/repo":
+    import shutil
+    snap = BUILD + "/harness_snapshot"
+    shutil.rmtree(snap, ignore_errors=True)
+    shutil.copytree(V + "/harness", snap)
+    ENV["VERIF_HARNESS"] = snap
     if not os.path.isdir(R):
         subprocess.run(["git", "-C", "/repo", "worktree", "add", "-q", "--detach", R, "HEAD"], check=True)
     head = subprocess.run(["git", "-C", "/repo", "rev-parse", "HEAD"], capture_output=True, text=True).stdout.strip()
